@@ -53,6 +53,7 @@ def run(ctx):
     check_strip_comments(ctx, T)
     check_placement(ctx)
     check_strip_simulation(ctx)
+    check_truncate_simulation(ctx, T)
     from .. import rules_tree as RT2
     ctx.rule('R8.5', 'strip_comments reaches every comment: the filter descends into every group (get_sublists yields every group child)', floor=3)
     RT2.check_filter_descends(ctx, 'R8.5', RF.filter_class(ctx, 'StripCommentsFilter'))
@@ -220,11 +221,12 @@ def check_truncate(ctx):
                 {n_.value.id for n_ in ast.walk(s.value) if isinstance(n_, ast.Subscript) and isinstance(n_.value, ast.Name)
                  and isinstance(n_.slice, ast.Slice) and n_.slice.upper is not None and src(n_.slice.upper) == 'self.width'}
             longer = any(pol and e.replace(' ', '') in {f'len({nm})>self.width' for nm in inner_names} for e, pol in facts)
-            shape, why = truncation_shape(v, vv)
-            ok = ok and shape and longer and not not_single
-            detail = f'`{src(s)}` = {src(v)[:90]}; {why}; guard len(inner) > self.width: {longer}; on the String.Single path: {not not_single}'
+            # what the rewritten text is (quote + first characters + marker + quote, cut between characters) is decided by
+            # interpretation in R8.8; here only: the rewrite happens on the String.Single path and one (ttype, value) pair is yielded
+            ok = ok and not not_single
+            detail = f'`{src(s)}` = {src(v)[:90]}; on the String.Single path: {not not_single}'
         ctx.ob('R8.1', key, f'{f.mod.relpath}:{ys[0].lineno}',
-               'yields the token unchanged, or a String.Single longer than width cut to quote + first width characters + marker + quote', ok, detail)
+               'yields the token unchanged, or rewrites the text of a String.Single token only (contents of the rewrite: R8.8)', ok, detail)
 
 
 def truncation_shape(v, vv):
@@ -706,6 +708,24 @@ def check_strip_simulation(ctx):
         ctx.ob('R8.6', 'simulation', loc, 'strip_comments simulation evaluable', True)
         return
     ctx.info['strip_comments_simulated_trees'] = n
+    # the one place where a comment goes without a replacement although a token follows: the start of a statement.  Safe only if
+    # the statement boundary in front has punctuation or whitespace on it; the splitter also ends a statement behind the word GO,
+    # and a comment can follow GO directly.
+    st = group(classes['S'], build(['c', 'x']))
+    try:
+        run(st)
+        bare = [t.value for t in leaves(st)] == ['x']
+    except (ME.Unsupported, ME.Unknown, ME.Crash):
+        bare = False
+    sp = repo.func('sqlparse.engine.statement_splitter.StatementSplitter.process')
+    words = sorted({x.value for x in own_nodes(sp.node) if isinstance(x, ast.Constant) and isinstance(x.value, str) and x.value.isalpha() and x.value.isupper()})
+    ctx.rule('R8.7', 'a comment that opens a statement is removed without a separator only where the preceding statement cannot end in a word', floor=1)
+    if not bare or not words:
+        ctx.ob('R8.7', 'statement-start', loc, 'a leading comment is replaced by a separator, or every statement boundary has punctuation on it', True)
+    for w in (words if bare else []):
+        ctx.ob('R8.7', f'statement-start:{w}', loc, f'the comment that opens a statement is dropped without a separator only if the previous statement cannot end with {w}', False,
+               f'`select 1 {w}/*c*/select 2`: the splitter ends the first statement behind {w}, the second one starts with the comment, the comment '
+               f'is removed without a replacement and format() joins the statements: `select 1 {w}select 2` ({w} and select fused, one statement)')
     ctx.need(n >= 1000, f'strip_comments simulation ran on {n} trees only')
     # one obligation per distinct failure class so that known findings can be keyed
     classes_ = {}
@@ -715,3 +735,74 @@ def check_strip_simulation(ctx):
            'ordinary comments removed, hints and other tokens kept in order, no fusion, idempotent', not bad,
            f'{len(bad)} tree(s) violate it (c block comment, l line comment, h hint, w blank, n newline, x name; G comment group, T nested group, '
            f'P parenthesis), e.g. ' + ' | '.join(v[0] for v in list(classes_.values())[:4]))
+
+
+# ---------------------------------------------------------------------------
+# R8.8: TruncateStringFilter.process interpreted on concrete literals, read back with the lexer's own rule
+
+def check_truncate_simulation(ctx, T):
+    """truncate_strings is a writer of single-quoted literals, the lexer rule for them is the reader: whatever the filter emits for a
+    literal the lexer produced must again be one String.Single token (else the edit has split it), must be unchanged when the
+    contents fit, and must otherwise be the opening quote, the first characters of the contents, the marker and the closing quote."""
+    import itertools
+    repo = ctx.repo
+    ctx.rule('R8.8', 'TruncateStringFilter.process interpreted on concrete literals: the result is again one single-quoted literal, cut between characters', floor=1)
+    c = RF.filter_class(ctx, 'TruncateStringFilter')
+    f = c.methods['process']
+    loc = f'{f.mod.relpath}:{f.node.lineno}'
+    SINGLE = TT(('Literal', 'String', 'Single'))
+    NAME = TT(('Name',))
+    units = ['a', 'b', "''", "\\'", ' ']
+    lits = []
+    for n_ in range(0, 6):
+        for p in itertools.product(units, repeat=n_):
+            v = "'" + ''.join(p) + "'"
+            r, end, tt = T.lex_one(v, 0)
+            if end == len(v) and tt == SINGLE:
+                lits.append((p, v))
+    ctx.need(len(lits) >= 500, f'only {len(lits)} literals over the unit alphabet are single String.Single tokens')
+    marker = '[...]'
+    bad, n = {}, 0
+    for width in (1, 2, 3):
+        for p, v in lits:
+            ev = ME.Evaluator(ctx, f.mod, c)
+            ev.effects = True
+            out = []
+            ev.on_yield = out.append
+            me = ME.Obj(_cls=c, width=width, char=marker)
+            try:
+                ME.run_function(ev, f.node, {f.params[0]: me, f.params[1]: [(SINGLE, v), (NAME, 'x')]}, max_steps=200)
+            except (ME.Unsupported, ME.Unknown) as e:
+                ctx.ob('R8.8', 'simulation', loc, 'truncate_strings is evaluable on concrete literals', None, f'{v!r}: {e}')
+                return
+            except ME.Crash as e:
+                bad.setdefault('crash', []).append(f'{v} width {width}: {e}')
+                continue
+            n += 1
+            body = v[1:-1]
+            nunits = len(p)
+            why = None
+            if len(out) != 2 or out[1] != (NAME, 'x') or out[0][0] != SINGLE:
+                why = 'stream'
+                bad.setdefault(why, []).append(f'{v} width {width} -> {out}')
+                continue
+            o = out[0][1]
+            r, end, tt = T.lex_one(o, 0)
+            if not (end == len(o) and tt == SINGLE):
+                why = 'the result is no longer one single-quoted literal (the token is split)'
+            elif len(body) <= width and o != v:
+                why = 'a literal that fits is changed'
+            elif o != v:
+                core = o[1:-(len(marker) + 1)] if o.endswith(marker + "'") and o.startswith("'") else None
+                if core is None or not body.startswith(core) or len(core) > width:
+                    why = 'the result is not quote + first characters + marker + quote'
+            elif len(body) > width + len(marker) + 2 and nunits > width:
+                why = 'a literal much longer than the limit is not shortened'
+            if why:
+                bad.setdefault(why, []).append(f'{v} width {width} -> {o}')
+    ctx.info['truncate_simulated_literals'] = n
+    if not bad:
+        ctx.ob('R8.8', 'simulation', loc, f'{n} (literal, width) pairs over the units a, b, doubled quote, backslash-quote, blank: result is one literal, cut between characters', True)
+    for why, items in sorted(bad.items()):
+        ctx.ob('R8.8', f'simulation:{why[:40]}', loc, f'truncate_strings keeps every literal one token and cuts it between characters ({n} pairs interpreted)', False,
+               f'{len(items)} pair(s): {why}, e.g. {items[:3]}')
